@@ -22,14 +22,12 @@ def owedL (d m : Nat) : LPc → Nat
   | .iter m' rem => if m' = m then w d rem else 0
   | .call m' x rem => if m' = m then w d (x :: rem) else 0
   | .fwd m' rem => if m' = m then 1 + w d rem else 0
-  | .fwdEntered m' rem => if m' = m then 1 + w d rem else 0
   | .fwdIter m' frem rem => if m' = m then w d frem + w d rem else 0
   | .fwdCall m' k frem rem => if m' = m then ite1 (k = d) + w d frem + w d rem else 0
 
 def owedA (d m : Nat) : APc → Nat
   | .resendIter todo => todo.count m
   | .resendAtSend m' t => ite1 (m' = m) + t.count m
-  | .resendEntered m' t => ite1 (m' = m) + t.count m
   | .resendNext m' rem t => (if m' = m then w d rem else 0) + t.count m
   | .resendCall m' k rem t => (if m' = m then ite1 (k = d) + w d rem else 0) + t.count m
   | _ => 0
@@ -42,7 +40,7 @@ def total (n : Nat) (pre : List Nat) (prog : Nat → List Nat) (m : Nat) : Nat :
   pre.count m + sumTo n (fun x => (prog x).count m)
 
 def pastDrain : APc → Bool
-  | .test | .setAnyAdded | .takeBuffer | .swap | .drain | .extend => false
+  | .test | .setAnyAdded | .takeBuffer | .mkNew | .drainEnter | .extend => false
   | _ => true
 
 structure Inv (n : Nat) (pre : List Nat) (prog : Nat → List Nat) (d : Nat) (s : State) : Prop where
@@ -70,6 +68,10 @@ theorem inv_init (n : Nat) (pre : List Nat) (prog : Nat → List Nat) (ds : List
     simp only [init] at this
     rw [this]; omega
   · simp [init, curList, w]
+
+theorem w_fwdList (n : Nat) (pre : List Nat) (prog : Nat → List Nat) (d : Nat) (s : State) (hi : Inv n pre prog d s) :
+    w d (fwdList s) = 1 := by
+  rw [fwdList, w_map_real]; exact hi.dcount
 
 theorem count_snoc (l : List Nat) (a m : Nat) : (l ++ [a]).count m = l.count m + ite1 (a = m) := by
   simp [List.count_append, List.count_cons, ite1]
@@ -178,6 +180,9 @@ theorem inv_step_logger (n : Nat) (pre : List Nat) (prog : Nat → List Nat) (d 
         by_cases h : a = m <;> by_cases h2 : k = d <;> simp [h, h2, ite1] <;> omega
       | buffer =>
         simp only at hs
+        by_cases hl : s.lockHeld = true
+        · rw [if_pos hl] at hs; cases hs
+        rw [if_neg hl] at hs
         by_cases hf : s.forward = true
         · rw [if_pos hf] at hs
           injection hs with hs
@@ -198,14 +203,7 @@ theorem inv_step_logger (n : Nat) (pre : List Nat) (prog : Nat → List Nat) (d 
       subst hs
       refine inv_logger n pre prog d s _ hi (fun m => ?_) rfl rfl (fun _ => rfl) rfl rfl rfl
       refine acct_of_local n d m s _ i hin (other _ _ m rfl rfl) rfl ?_
-      simp only [contrib, setL, upd, ↓reduceIte, hpc, owedL]
-    | fwdEntered a rem =>
-      rw [hpc] at hs
-      injection hs with hs
-      subst hs
-      refine inv_logger n pre prog d s _ hi (fun m => ?_) rfl rfl (fun _ => rfl) rfl rfl rfl
-      refine acct_of_local n d m s _ i hin (other _ _ m rfl rfl) rfl ?_
-      have := hi.wcur
+      have := w_fwdList n pre prog d s hi
       simp only [contrib, setL, upd, ↓reduceIte, hpc, owedL, this]
     | fwdIter a frem rem =>
       rw [hpc] at hs
@@ -295,7 +293,7 @@ theorem inv_step_adder (n : Nat) (pre : List Nat) (prog : Nat → List Nat) (d :
                 simp [hpc, owedA]
               wcur := hi.wcur, fwdbuf := hi.fwdbuf, tst := by simp, noext := by simp,
               pd := by simp [pastDrain], dcount := hi.dcount }
-  | swap =>
+  | mkNew =>
     rw [hpc] at hs
     injection hs with hs
     subst hs
@@ -303,10 +301,13 @@ theorem inv_step_adder (n : Nat) (pre : List Nat) (prog : Nat → List Nat) (d :
               rw [← hacct m]
               refine acct_adder n d m s _ rfl rfl ?_
               simp [hpc, owedA]
-            wcur := by simp only [curList, ↓reduceIte]; rw [w_map_real]; exact hi.dcount
-            fwdbuf := hi.fwdbuf, tst := by simp, noext := by simp, pd := by simp [pastDrain], dcount := hi.dcount }
-  | drain =>
+            wcur := hi.wcur, fwdbuf := hi.fwdbuf, tst := by simp, noext := by simp,
+            pd := by simp [pastDrain], dcount := hi.dcount }
+  | drainEnter =>
     rw [hpc] at hs
+    by_cases hl : s.lockHeld = true
+    · rw [if_pos hl] at hs; cases hs
+    rw [if_neg hl] at hs
     injection hs with hs
     subst hs
     exact { acct := fun m => by
@@ -345,18 +346,7 @@ theorem inv_step_adder (n : Nat) (pre : List Nat) (prog : Nat → List Nat) (d :
     injection hs with hs
     subst hs
     exact { acct := fun m => by
-              rw [← hacct m]
-              refine acct_adder n d m s _ rfl rfl ?_
-              simp only [hpc, owedA]
-            wcur := hi.wcur, fwdbuf := hi.fwdbuf, tst := by simp, noext := by simp,
-            pd := fun _ => hf, dcount := hi.dcount }
-  | resendEntered a t =>
-    rw [hpc] at hs
-    have hf := hi.pd (by rw [hpc]; rfl)
-    injection hs with hs
-    subst hs
-    exact { acct := fun m => by
-              have hw := hi.wcur
+              have hw := w_fwdList n pre prog d s hi
               rw [← hacct m]
               refine acct_adder n d m s _ rfl rfl ?_
               simp only [hpc, owedA, hw, ite1]
@@ -404,6 +394,28 @@ theorem inv_step_adder (n : Nat) (pre : List Nat) (prog : Nat → List Nat) (d :
               by_cases h : a = m <;> by_cases h2 : k = d <;> simp [h, h2, ite1] <;> omega
             wcur := hi.wcur, fwdbuf := hi.fwdbuf, tst := by simp, noext := by simp,
             pd := fun _ => hf, dcount := hi.dcount }
+  | release =>
+    rw [hpc] at hs
+    have hf := hi.pd (by rw [hpc]; rfl)
+    injection hs with hs
+    subst hs
+    exact { acct := fun m => by
+              rw [← hacct m]
+              refine acct_adder n d m s _ rfl rfl ?_
+              simp [hpc, owedA]
+            wcur := hi.wcur, fwdbuf := hi.fwdbuf, tst := by simp, noext := by simp,
+            pd := fun _ => hf, dcount := hi.dcount }
+  | swap =>
+    rw [hpc] at hs
+    have hf := hi.pd (by rw [hpc]; rfl)
+    injection hs with hs
+    subst hs
+    exact { acct := fun m => by
+              rw [← hacct m]
+              refine acct_adder n d m s _ rfl rfl ?_
+              simp [hpc, owedA]
+            wcur := by simp only [curList, ↓reduceIte]; rw [w_map_real]; exact hi.dcount
+            fwdbuf := hi.fwdbuf, tst := by simp, noext := by simp, pd := fun _ => hf, dcount := hi.dcount }
   | extend => exact absurd hpc hi.noext
   | done => rw [hpc] at hs; cases hs
 
@@ -417,5 +429,499 @@ theorem inv_run (n : Nat) (pre : List Nat) (prog : Nat → List Nat) (ds : List 
     (sched : List Tid) : Inv n pre prog d (run n (init pre prog ds) sched) :=
   (sys n).inv_run (Inv n pre prog d) (fun s t s' h hs => inv_step n pre prog d s t s' h hs) _
     (inv_init n pre prog ds d hd) sched
+
+end Eliot.Conc.HandoverFix
+
+namespace Eliot.Conc.HandoverFix
+
+/-! ### Order: what the buffer held at the hand-over comes first, in order -/
+
+def onlyBuffer (rem : List Dest) : Bool := rem.all (fun x => x == .buffer)
+
+/-- a logger that has neither a real destination in hand nor is forwarding -/
+def quiet : LPc → Bool
+  | .idle => true
+  | .entered _ => true
+  | .iter _ rem => onlyBuffer rem
+  | .call _ d rem => d == .buffer && onlyBuffer rem
+  | _ => false
+
+/-- 0: before drain() took the buffer; 1: inside drain() (lock held); 2: after the lock was released -/
+def phase : APc → Nat
+  | .test | .setAnyAdded | .takeBuffer | .mkNew | .drainEnter | .extend => 0
+  | .resendIter _ | .resendAtSend _ _ | .resendNext _ _ _ | .resendCall _ _ _ _ | .release => 1
+  | .swap | .done => 2
+
+/-- drained messages that destination `d` has not received yet -/
+def pendingD (d : Nat) : APc → List Nat
+  | .resendIter t => t
+  | .resendAtSend m t => m :: t
+  | .resendNext m rem t => if w d rem = 0 then t else m :: t
+  | .resendCall m k rem t => if k = d ∨ w d rem ≠ 0 then m :: t else t
+  | _ => []
+
+def atMostOne (d : Nat) : APc → Prop
+  | .resendNext _ rem _ => w d rem ≤ 1
+  | .resendCall _ k rem _ => ite1 (k = d) + w d rem ≤ 1
+  | _ => True
+
+structure InvO (pre : List Nat) (d : Nat) (s : State) : Prop where
+  p0 : phase s.addPc = 0 → s.delivered d = [] ∧ (∃ x, s.buf = pre ++ x) ∧ s.forward = false ∧ s.lockHeld = false
+  p1 : phase s.addPc = 1 → s.delivered d ++ pendingD d s.addPc = s.drained ∧ s.lockHeld = true
+  p2 : phase s.addPc = 2 → ∃ later, s.delivered d = s.drained ++ later
+  dr : phase s.addPc ≠ 0 → ∃ x, s.drained = pre ++ x
+  q : phase s.addPc ≤ 1 → ∀ i, quiet (s.logPc i) = true
+  cf : s.addPc ≠ .done → s.cur = false
+  c1 : atMostOne d s.addPc
+  dc : s.addDests.count d = 1
+
+theorem invO_init (pre : List Nat) (prog : Nat → List Nat) (ds : List Nat) (d : Nat) (hd : ds.count d = 1) :
+    InvO pre d (init pre prog ds) := by
+  refine { p0 := ?_, p1 := by simp [init, phase], p2 := by simp [init, phase], dr := by simp [init, phase],
+           q := by simp [init, quiet], cf := by simp [init], c1 := by simp [init, atMostOne], dc := hd }
+  intro _
+  exact ⟨rfl, ⟨[], by simp [init]⟩, rfl, rfl⟩
+
+theorem delivered_deliver (s : State) (k a d : Nat) :
+    (deliver s k a).delivered d = if k = d then s.delivered d ++ [a] else s.delivered d := by
+  by_cases h : k = d
+  · subst h; simp [deliver, upd]
+  · have h' : ¬ d = k := fun e => h e.symm
+    simp [deliver, upd, h, h']
+
+/-- a logger step that delivers nothing and appends nothing -/
+theorem invO_logger_plain (pre : List Nat) (d : Nat) (s : State) (i : Nat) (pc : LPc) (hi : InvO pre d s)
+    (hq : phase s.addPc ≤ 1 → quiet pc = true) : InvO pre d (setL s i pc) :=
+  { p0 := hi.p0, p1 := hi.p1, p2 := hi.p2, dr := hi.dr
+    q := by
+      intro hp x
+      by_cases hx : x = i
+      · subst hx; simp [setL, upd, hq hp]
+      · simpa [setL, upd, hx] using hi.q hp x
+    cf := hi.cf, c1 := hi.c1, dc := hi.dc }
+
+theorem onlyBuffer_cons (x : Dest) (r : List Dest) : onlyBuffer (x :: r) = (x == .buffer && onlyBuffer r) := by
+  simp [onlyBuffer]
+
+theorem invO_step_logger (n : Nat) (pre : List Nat) (d : Nat) (s : State) (i : Nat) (s' : State)
+    (hi : InvO pre d s) (hs : step n s (.logger i) = some s') : InvO pre d s' := by
+  simp only [step] at hs
+  by_cases hin : i < n
+  · simp only [hin, ↓reduceIte] at hs
+    cases hpc : s.logPc i with
+    | idle =>
+      rw [hpc] at hs
+      simp only at hs
+      cases hp : s.logPending i with
+      | nil => rw [hp] at hs; cases hs
+      | cons a r =>
+        rw [hp] at hs
+        injection hs with hs
+        subst hs
+        exact { p0 := hi.p0, p1 := hi.p1, p2 := hi.p2, dr := hi.dr
+                q := by
+                  intro hph x
+                  by_cases hx : x = i
+                  · subst hx; simp [upd, quiet]
+                  · simpa [upd, hx] using hi.q hph x
+                cf := hi.cf, c1 := hi.c1, dc := hi.dc }
+    | entered a =>
+      rw [hpc] at hs
+      injection hs with hs
+      subst hs
+      refine invO_logger_plain pre d s i _ hi (fun hp => ?_)
+      have hc : s.cur = false := hi.cf (by intro h; rw [h] at hp; simp [phase] at hp)
+      simp [quiet, curList, hc, onlyBuffer]
+    | iter a rem =>
+      rw [hpc] at hs
+      cases rem with
+      | nil =>
+        injection hs with hs
+        subst hs
+        exact invO_logger_plain pre d s i _ hi (fun _ => rfl)
+      | cons x r =>
+        injection hs with hs
+        subst hs
+        refine invO_logger_plain pre d s i _ hi (fun hp => ?_)
+        have := hi.q hp i
+        rw [hpc] at this
+        simpa [quiet, onlyBuffer_cons] using this
+    | call a x rem =>
+      rw [hpc] at hs
+      cases x with
+      | real k =>
+        injection hs with hs
+        subst hs
+        -- only possible after the lock was released
+        have hph : ¬ phase s.addPc ≤ 1 := by
+          intro hp
+          have := hi.q hp i
+          rw [hpc] at this
+          simp [quiet] at this
+        have h2 : phase s.addPc = 2 := by
+          have : phase s.addPc ≤ 2 := by cases s.addPc <;> simp [phase]
+          omega
+        obtain ⟨later, hl⟩ := hi.p2 h2
+        exact { p0 := by intro h; simp [setL, deliver] at h; omega
+                p1 := by intro h; simp [setL, deliver] at h; omega
+                p2 := by
+                  intro _
+                  show ∃ later', (deliver s k a).delivered d = s.drained ++ later'
+                  rw [delivered_deliver]
+                  by_cases hk : k = d
+                  · exact ⟨later ++ [a], by simp [hk, hl]⟩
+                  · exact ⟨later, by simp [hk, hl]⟩
+                dr := hi.dr
+                q := by intro h; simp [setL, deliver] at h; omega
+                cf := hi.cf, c1 := hi.c1, dc := hi.dc }
+      | buffer =>
+        simp only at hs
+        by_cases hl : s.lockHeld = true
+        · rw [if_pos hl] at hs; cases hs
+        rw [if_neg hl] at hs
+        by_cases hf : s.forward = true
+        · rw [if_pos hf] at hs
+          injection hs with hs
+          subst hs
+          refine invO_logger_plain pre d s i _ hi (fun hp => ?_)
+          -- forward set and lock free: the adder is past the release
+          exfalso
+          have hph : phase s.addPc = 0 ∨ phase s.addPc = 1 := by omega
+          rcases hph with h | h
+          · have := (hi.p0 h).2.2.1; rw [hf] at this; cases this
+          · exact hl (hi.p1 h).2
+        · rw [if_neg hf] at hs
+          injection hs with hs
+          subst hs
+          have hqr : phase s.addPc ≤ 1 → onlyBuffer rem = true := by
+            intro hp
+            have := hi.q hp i
+            rw [hpc] at this
+            simpa [quiet] using this
+          exact { p0 := by
+                    intro h
+                    obtain ⟨h1, ⟨x, h2⟩, h3, h4⟩ := hi.p0 h
+                    exact ⟨h1, ⟨x ++ [a], by simp [setL, h2]⟩, h3, h4⟩
+                  p1 := hi.p1, p2 := hi.p2, dr := hi.dr
+                  q := by
+                    intro hp x
+                    by_cases hx : x = i
+                    · subst hx; simp [setL, upd, quiet, hqr hp]
+                    · simpa [setL, upd, hx] using hi.q hp x
+                  cf := hi.cf, c1 := hi.c1, dc := hi.dc }
+    | fwd a rem =>
+      rw [hpc] at hs
+      injection hs with hs
+      subst hs
+      refine invO_logger_plain pre d s i _ hi (fun hp => ?_)
+      have := hi.q hp i
+      rw [hpc] at this
+      simp [quiet] at this
+    | fwdIter a frem rem =>
+      rw [hpc] at hs
+      have hph : ¬ phase s.addPc ≤ 1 := by
+        intro hp
+        have := hi.q hp i
+        rw [hpc] at this
+        simp [quiet] at this
+      cases frem with
+      | nil =>
+        injection hs with hs
+        subst hs
+        exact invO_logger_plain pre d s i _ hi (fun hp => absurd hp hph)
+      | cons x r =>
+        cases x with
+        | buffer => cases hs
+        | real k =>
+          injection hs with hs
+          subst hs
+          exact invO_logger_plain pre d s i _ hi (fun hp => absurd hp hph)
+    | fwdCall a k frem rem =>
+      rw [hpc] at hs
+      injection hs with hs
+      subst hs
+      have hph : ¬ phase s.addPc ≤ 1 := by
+        intro hp
+        have := hi.q hp i
+        rw [hpc] at this
+        simp [quiet] at this
+      have h2 : phase s.addPc = 2 := by
+        have : phase s.addPc ≤ 2 := by cases s.addPc <;> simp [phase]
+        omega
+      obtain ⟨later, hl⟩ := hi.p2 h2
+      exact { p0 := by intro h; simp [setL, deliver] at h; omega
+              p1 := by intro h; simp [setL, deliver] at h; omega
+              p2 := by
+                intro _
+                show ∃ later', (deliver s k a).delivered d = s.drained ++ later'
+                rw [delivered_deliver]
+                by_cases hk : k = d
+                · exact ⟨later ++ [a], by simp [hk, hl]⟩
+                · exact ⟨later, by simp [hk, hl]⟩
+              dr := hi.dr
+              q := by intro h; simp [setL, deliver] at h; omega
+              cf := hi.cf, c1 := hi.c1, dc := hi.dc }
+  · simp [hin] at hs
+
+end Eliot.Conc.HandoverFix
+
+namespace Eliot.Conc.HandoverFix
+
+theorem invO_step_adder (n : Nat) (pre : List Nat) (d : Nat) (s : State) (s' : State)
+    (hi : InvO pre d s) (hs : step n s .adder = some s') : InvO pre d s' := by
+  simp only [step] at hs
+  cases hpc : s.addPc with
+  | test =>
+    rw [hpc] at hs
+    injection hs with hs
+    subst hs
+    have h0 := hi.p0 (by rw [hpc]; rfl)
+    have hq := hi.q (by rw [hpc]; simp [phase])
+    have hcf := hi.cf (by rw [hpc]; simp)
+    by_cases ha : s.anyAdded = true
+    · exact { p0 := fun _ => h0, p1 := by simp [ha, phase], p2 := by simp [ha, phase], dr := by simp [ha, phase],
+              q := fun _ => hq, cf := fun _ => hcf, c1 := by simp [ha, atMostOne], dc := hi.dc }
+    · exact { p0 := fun _ => h0, p1 := by simp [ha, phase], p2 := by simp [ha, phase], dr := by simp [ha, phase],
+              q := fun _ => hq, cf := fun _ => hcf, c1 := by simp [ha, atMostOne], dc := hi.dc }
+  | setAnyAdded =>
+    rw [hpc] at hs
+    injection hs with hs
+    subst hs
+    have h0 := hi.p0 (by rw [hpc]; rfl)
+    have hq := hi.q (by rw [hpc]; simp [phase])
+    have hcf := hi.cf (by rw [hpc]; simp)
+    exact { p0 := fun _ => h0, p1 := by simp [phase], p2 := by simp [phase], dr := by simp [phase],
+            q := fun _ => hq, cf := fun _ => hcf, c1 := by simp [atMostOne], dc := hi.dc }
+  | takeBuffer =>
+    rw [hpc] at hs
+    by_cases hc : s.cur = true
+    · simp [hc] at hs
+    · rw [if_neg hc] at hs
+      injection hs with hs
+      subst hs
+      have h0 := hi.p0 (by rw [hpc]; rfl)
+      have hq := hi.q (by rw [hpc]; simp [phase])
+      have hcf := hi.cf (by rw [hpc]; simp)
+      exact { p0 := fun _ => h0, p1 := by simp [phase], p2 := by simp [phase], dr := by simp [phase],
+              q := fun _ => hq, cf := fun _ => hcf, c1 := by simp [atMostOne], dc := hi.dc }
+  | mkNew =>
+    rw [hpc] at hs
+    injection hs with hs
+    subst hs
+    have h0 := hi.p0 (by rw [hpc]; rfl)
+    have hq := hi.q (by rw [hpc]; simp [phase])
+    have hcf := hi.cf (by rw [hpc]; simp)
+    exact { p0 := fun _ => h0, p1 := by simp [phase], p2 := by simp [phase], dr := by simp [phase],
+            q := fun _ => hq, cf := fun _ => hcf, c1 := by simp [atMostOne], dc := hi.dc }
+  | drainEnter =>
+    rw [hpc] at hs
+    by_cases hl : s.lockHeld = true
+    · rw [if_pos hl] at hs; cases hs
+    rw [if_neg hl] at hs
+    injection hs with hs
+    subst hs
+    obtain ⟨hd0, hx, _, _⟩ := hi.p0 (by rw [hpc]; rfl)
+    have hq := hi.q (by rw [hpc]; simp [phase])
+    have hcf := hi.cf (by rw [hpc]; simp)
+    exact { p0 := by simp [phase]
+            p1 := fun _ => ⟨by simp [pendingD, hd0], rfl⟩
+            p2 := by simp [phase]
+            dr := fun _ => hx
+            q := fun _ => hq, cf := fun _ => hcf, c1 := by simp [atMostOne], dc := hi.dc }
+  | resendIter todo =>
+    rw [hpc] at hs
+    obtain ⟨h1, hlk⟩ := hi.p1 (by rw [hpc]; rfl)
+    have hdr := hi.dr (by rw [hpc]; simp [phase])
+    have hq := hi.q (by rw [hpc]; simp [phase])
+    have hcf := hi.cf (by rw [hpc]; simp)
+    rw [hpc] at h1
+    cases todo with
+    | nil =>
+      injection hs with hs
+      subst hs
+      exact { p0 := by simp [phase], p1 := fun _ => ⟨by simpa [pendingD] using h1, hlk⟩, p2 := by simp [phase],
+              dr := fun _ => hdr, q := fun _ => hq, cf := fun _ => hcf, c1 := by simp [atMostOne], dc := hi.dc }
+    | cons a t =>
+      injection hs with hs
+      subst hs
+      exact { p0 := by simp [phase], p1 := fun _ => ⟨by simpa [pendingD] using h1, hlk⟩, p2 := by simp [phase],
+              dr := fun _ => hdr, q := fun _ => hq, cf := fun _ => hcf, c1 := by simp [atMostOne], dc := hi.dc }
+  | resendAtSend a t =>
+    rw [hpc] at hs
+    obtain ⟨h1, hlk⟩ := hi.p1 (by rw [hpc]; rfl)
+    have hdr := hi.dr (by rw [hpc]; simp [phase])
+    have hq := hi.q (by rw [hpc]; simp [phase])
+    have hcf := hi.cf (by rw [hpc]; simp)
+    rw [hpc] at h1
+    injection hs with hs
+    subst hs
+    have hw : w d (fwdList s) = 1 := by rw [fwdList, w_map_real]; exact hi.dc
+    exact { p0 := by simp [phase]
+            p1 := fun _ => ⟨by simpa [pendingD, hw] using h1, hlk⟩
+            p2 := by simp [phase], dr := fun _ => hdr, q := fun _ => hq, cf := fun _ => hcf
+            c1 := by simp [atMostOne, hw], dc := hi.dc }
+  | resendNext a rem t =>
+    rw [hpc] at hs
+    obtain ⟨h1, hlk⟩ := hi.p1 (by rw [hpc]; rfl)
+    have hdr := hi.dr (by rw [hpc]; simp [phase])
+    have hq := hi.q (by rw [hpc]; simp [phase])
+    have hcf := hi.cf (by rw [hpc]; simp)
+    have hc1 := hi.c1
+    rw [hpc] at h1 hc1
+    cases rem with
+    | nil =>
+      injection hs with hs
+      subst hs
+      exact { p0 := by simp [phase], p1 := fun _ => ⟨by simpa [pendingD] using h1, hlk⟩, p2 := by simp [phase],
+              dr := fun _ => hdr, q := fun _ => hq, cf := fun _ => hcf, c1 := by simp [atMostOne], dc := hi.dc }
+    | cons x r =>
+      cases x with
+      | buffer => cases hs
+      | real k =>
+        injection hs with hs
+        subst hs
+        simp only [atMostOne, w_cons_real] at hc1
+        exact { p0 := by simp [phase]
+                p1 := fun _ => ⟨by
+                  simp only [pendingD, w_cons_real] at h1 ⊢
+                  by_cases hk : k = d
+                  · simpa [hk] using h1
+                  · simpa [hk] using h1, hlk⟩
+                p2 := by simp [phase], dr := fun _ => hdr, q := fun _ => hq, cf := fun _ => hcf
+                c1 := by simpa [atMostOne, ite1] using hc1
+                dc := hi.dc }
+  | resendCall a k rem t =>
+    rw [hpc] at hs
+    obtain ⟨h1, hlk⟩ := hi.p1 (by rw [hpc]; rfl)
+    have hdr := hi.dr (by rw [hpc]; simp [phase])
+    have hq := hi.q (by rw [hpc]; simp [phase])
+    have hcf := hi.cf (by rw [hpc]; simp)
+    have hc1 := hi.c1
+    rw [hpc] at h1 hc1
+    injection hs with hs
+    subst hs
+    simp only [atMostOne, ite1] at hc1
+    exact { p0 := by simp [phase]
+            p1 := fun _ => ⟨by
+              show (deliver s k a).delivered d ++ pendingD d (.resendNext a rem t) = s.drained
+              rw [delivered_deliver]
+              simp only [pendingD] at h1 ⊢
+              by_cases hk : k = d
+              · have hw : w d rem = 0 := by simp [hk] at hc1; omega
+                simp [hk, hw] at h1 ⊢
+                exact h1
+              · by_cases hw : w d rem = 0
+                · simpa [hk, hw] using h1
+                · simpa [hk, hw] using h1, hlk⟩
+            p2 := by simp [phase], dr := fun _ => hdr
+            q := fun _ => hq, cf := fun _ => hcf
+            c1 := by
+              simp only [atMostOne]
+              by_cases hk : k = d
+              · simp [hk] at hc1; omega
+              · simp [hk] at hc1; omega
+            dc := hi.dc }
+  | release =>
+    rw [hpc] at hs
+    obtain ⟨h1, _⟩ := hi.p1 (by rw [hpc]; rfl)
+    have hdr := hi.dr (by rw [hpc]; simp [phase])
+    have hcf := hi.cf (by rw [hpc]; simp)
+    rw [hpc] at h1
+    injection hs with hs
+    subst hs
+    exact { p0 := by simp [phase], p1 := by simp [phase]
+            p2 := fun _ => ⟨[], by simpa [pendingD] using h1⟩
+            dr := fun _ => hdr, q := by simp [phase], cf := fun _ => hcf, c1 := by simp [atMostOne], dc := hi.dc }
+  | swap =>
+    rw [hpc] at hs
+    have h2 := hi.p2 (by rw [hpc]; rfl)
+    have hdr := hi.dr (by rw [hpc]; simp [phase])
+    injection hs with hs
+    subst hs
+    exact { p0 := by simp [phase], p1 := by simp [phase], p2 := fun _ => h2, dr := fun _ => hdr,
+            q := by simp [phase], cf := by simp, c1 := by simp [atMostOne], dc := hi.dc }
+  | extend =>
+    rw [hpc] at hs
+    have hcf := hi.cf (by rw [hpc]; simp)
+    simp [hcf] at hs
+  | done => rw [hpc] at hs; cases hs
+
+theorem invO_run (n : Nat) (pre : List Nat) (prog : Nat → List Nat) (ds : List Nat) (d : Nat) (hd : ds.count d = 1)
+    (sched : List Tid) : InvO pre d (run n (init pre prog ds) sched) :=
+  (sys n).inv_run (InvO pre d) (fun s t s' h hs => by
+    cases t with
+    | logger i => exact invO_step_logger n pre d s i s' h hs
+    | adder => exact invO_step_adder n pre d s s' h hs) _ (invO_init pre prog ds d hd) sched
+
+end Eliot.Conc.HandoverFix
+
+namespace Eliot.Conc.HandoverFix
+
+/-- **handover_no_loss** (repaired skeleton): for any number of logging threads, any programs, any
+messages buffered before, any destinations and *every schedule*: for each destination `d` of the
+first add (occurring once in it) and each message id `m`, the number of times `d` has received `m`
+plus the number of deliveries of `m` to `d` that are still owed - `m` pending in a thread, in flight,
+in the buffer that drain() will take, or in drain()'s re-send loop - is the number of times `m` was
+logged.  Hence when all threads have finished, `d` has received every logged message exactly as
+often as it was logged: nothing lost, nothing duplicated. -/
+theorem handover_no_loss (n : Nat) (pre : List Nat) (prog : Nat → List Nat) (ds : List Nat) (sched : List Tid)
+    (d : Nat) (hd : ds.count d = 1) :
+    let s := run n (init pre prog ds) sched
+    (∀ m, (s.delivered d).count m + owed n d m s = total n pre prog m) ∧
+    (Finished n s → ∀ m, (s.delivered d).count m = total n pre prog m) := by
+  intro s
+  have hi : Inv n pre prog d s := inv_run n pre prog ds d hd sched
+  clear_value s
+  refine ⟨hi.acct, ?_⟩
+  intro hf m
+  have h := hi.acct m
+  obtain ⟨hl, ha⟩ := hf
+  have hfw : s.forward = true := hi.pd (by rw [ha]; rfl)
+  have hb : s.buf = [] := hi.fwdbuf hfw
+  have hz : sumTo n (contrib d m s) = 0 := sumTo_zero (fun x hx => by
+    obtain ⟨h1, h2⟩ := hl x hx
+    simp [contrib, h1, h2, owedL])
+  simp only [owed, hz, hb, ha, owedA, List.count_nil, Nat.add_zero] at h
+  exact h
+
+/-- **handover_no_overtake** (repaired skeleton): in every reachable state of every schedule the
+sequence received by a destination of the first add starts with what the buffer held when drain()
+took it over - the messages buffered before (`pre`) followed by those buffered meanwhile (`x`), in
+buffer order - and everything else (`later`: messages logged during or after the hand-over) comes
+after it; while the hand-over is still in progress the received sequence is a prefix of `pre ++ x`. -/
+theorem handover_no_overtake (n : Nat) (pre : List Nat) (prog : Nat → List Nat) (ds : List Nat) (sched : List Tid)
+    (d : Nat) (hd : ds.count d = 1) :
+    let s := run n (init pre prog ds) sched
+    (phase s.addPc = 2 → ∃ x later, s.delivered d = pre ++ x ++ later) ∧
+    (phase s.addPc = 1 → ∃ x rest, s.delivered d ++ rest = pre ++ x) ∧
+    (phase s.addPc = 0 → s.delivered d = []) := by
+  intro s
+  have hi : InvO pre d s := invO_run n pre prog ds d hd sched
+  clear_value s
+  refine ⟨?_, ?_, fun h => (hi.p0 h).1⟩
+  · intro h
+    obtain ⟨later, hl⟩ := hi.p2 h
+    obtain ⟨x, hx⟩ := hi.dr (by omega)
+    exact ⟨x, later, by rw [hl, hx]⟩
+  · intro h
+    obtain ⟨x, hx⟩ := hi.dr (by omega)
+    exact ⟨x, pendingD d s.addPc, by rw [(hi.p1 h).1, hx]⟩
+
+/-- while drain() holds the buffer's lock no logging thread delivers to a real destination or forwards -/
+theorem handover_drain_exclusive (n : Nat) (pre : List Nat) (prog : Nat → List Nat) (ds : List Nat) (sched : List Tid)
+    (d : Nat) (hd : ds.count d = 1) :
+    let s := run n (init pre prog ds) sched
+    phase s.addPc ≤ 1 → ∀ i, quiet (s.logPc i) = true :=
+  (invO_run n pre prog ds d hd sched).q
+
+/-! Non-vacuity: the schedules that lose / reorder on the old skeleton, on the repaired model. -/
+def demo (sched : List Tid) : State := run 1 (init [1, 2] (fun i => if i = 0 then [7] else []) [0]) sched
+/-- logger obtains the old list, the adder runs the whole first add, the logger continues: forwarded -/
+example : (demo ([.logger 0, .logger 0] ++ List.replicate 40 Tid.adder ++ List.replicate 12 (Tid.logger 0))).delivered 0 = [1, 2, 7] := by decide
+/-- logger arrives at the buffer while drain() holds the lock: it waits, then is forwarded after 1, 2 -/
+example : (demo (List.replicate 8 Tid.adder ++ List.replicate 6 (Tid.logger 0) ++ List.replicate 40 Tid.adder ++
+    List.replicate 12 (Tid.logger 0))).delivered 0 = [1, 2, 7] := by decide
+example : (demo (List.replicate 8 Tid.adder ++ List.replicate 6 (Tid.logger 0) ++ List.replicate 40 Tid.adder ++
+    List.replicate 12 (Tid.logger 0))).addPc = .done := by decide
 
 end Eliot.Conc.HandoverFix
